@@ -99,7 +99,8 @@ def zero_width_possible(t):
 class History:
     """builds a stream and tracks the expected world"""
 
-    def __init__(self, rng, views, dialect, big=False):
+    def __init__(self, rng, views, dialect, big=False, subscribed=None):
+        self.subscribed = subscribed       # method keys with a subscriber (None: nobody subscribes)
         self.rng = rng
         self.views = views
         self.dialect = dialect
@@ -199,10 +200,12 @@ class History:
         if self.rng.random() < 0.2 and idxs:
             idxs.append(self.rng.choice(idxs))       # the same property twice: last wins
         state = bytes([len(idxs)])
+        prop_values = []
         for i in idxs:
             name, size, t, flags = props[i]
             v = self.value(t)
             ent['client'][name] = v
+            prop_values.append([name, copy.deepcopy(v)])
             state += bytes([i]) + wire.encode(t, v, 1)
         head = struct.pack('<ihii', eid, tidx + 1, 0, 5) + pack_bits(vec3(self.rng)) + pack_bits(vec3(self.rng))
         if self.game == 'wot':
@@ -212,7 +215,8 @@ class History:
             self.world[eid] = ent
         else:
             self.world[eid] = ent
-        self.emit('create', head + bstream(state), id=eid, type=tidx, props=[props[i][0] for i in idxs])
+        self.emit('create', head + bstream(state), id=eid, type=tidx, props=[props[i][0] for i in idxs],
+                  etype=view['name'], prop_values=prop_values)
         return True
 
     def entity_property(self):
@@ -226,7 +230,7 @@ class History:
         v = self.value(t)
         ent['client'][name] = v
         self.emit('prop', struct.pack('<II', eid, i) + bstream(wire.encode(t, v, 1) + (b'\x09' * self.rng.choice([0, 0, 1]))),
-                  id=eid, prop=name, value=v)
+                  id=eid, prop=name, value=copy.deepcopy(v), etype=self.views[ent['type']]['name'])
         return True
 
     def entity_method(self, garbage=False):
@@ -237,6 +241,8 @@ class History:
         view = self.views[ent['type']]
         i = self.rng.randrange(len(view['methods']))
         m = view['methods'][i]
+        if garbage and self.subscribed is not None and (view['name'] + '_' + m['name']) in self.subscribed:
+            return False          # garbage goes to methods nobody subscribed to
         if garbage:
             body = bytes(self.rng.getrandbits(8) for _ in range(self.rng.randint(0, 6)))
             self.emit('method', struct.pack('<II', eid, i) + bstream(body), id=eid, method=m['name'], garbage=True, entity_type=view['name'])
@@ -454,7 +460,9 @@ class History:
         if t['k'] == 'array' and self.fixed_size_violation(t, v):
             pass
         payload = struct.pack('<IbI', eid, 1 if is_slice else 0, len(payload_body)) + payload_body
-        self.emit('nested', payload, id=eid, path=path, op=op, body_len=len(payload_body))
+        notify = copy.deepcopy(v) if len(data) > 0 else None
+        self.emit('nested', payload, id=eid, path=path, op=op, body_len=len(payload_body), notify=notify,
+                  etype=self.views[ent['type']]['name'])
         return True
 
     def fixed_size_violation(self, t, v):
@@ -494,8 +502,8 @@ def expected_world(h):
     return {'entities': ents, 'playerId': h.player_id, 'map': h.map.encode('utf-8').hex() if h.map is not None else None}
 
 
-def generate(rng, views, dialect, n_events, weights=None, big=False):
-    h = History(rng, views, dialect, big=big)
+def generate(rng, views, dialect, n_events, weights=None, big=False, subscribed=None):
+    h = History(rng, views, dialect, big=big, subscribed=subscribed)
     w = dict(base=1, cell=1, create=6, prop=8, method=6, position=4, ppos=3, map=1, noise=4, nested=8, garbage=1)
     if weights:
         w.update(weights)
